@@ -40,9 +40,22 @@ static __thread int t_in_seam = 0;
 void tsan_ignore_begin() { if (__tsan_ignore_thread_begin) __tsan_ignore_thread_begin(__FILE__, __LINE__); }
 void tsan_ignore_end() { if (__tsan_ignore_thread_end) __tsan_ignore_thread_end(__FILE__, __LINE__); }
 
+// Instruction-level preemption (plain variant). While a shot is armed on a thread, the CPU's trap flag is set
+// whenever the thread runs library code; every instruction then raises SIGTRAP, the handler counts the ones whose PC
+// lies in librx.so's text or in a code buffer the library mapped, and after the budgeted number it parks the thread
+// right there and lets another simulated thread run (rt::sched_yield_point_forced). A thread can thereby be suspended
+// between any two instructions of the library - including hand-written assembly, JIT-emitted code and code TSan
+// cannot instrument - and the position is a function of the plan (op, instruction count), so it replays.
+static __thread uint32_t t_step_left = 0;   // library instructions still to run before the switch (0 = not armed)
+static __thread int t_step_on = 0;
+static __thread uint32_t t_step_foreign = 0;
+static __thread OpCtx *t_step_ctx = nullptr;
+static inline void tf_set() { __asm__ volatile("pushfq\n\torq $0x100, (%%rsp)\n\tpopfq" ::: "memory", "cc"); }
+static inline void tf_clear() { __asm__ volatile("pushfq\n\tandq $~0x100, (%%rsp)\n\tpopfq" ::: "memory", "cc"); }
+
 struct InSeam {
-	InSeam() { ++t_in_seam; tsan_ignore_begin(); }
-	~InSeam() { tsan_ignore_end(); --t_in_seam; }
+	InSeam() { if (t_step_on) tf_clear(); ++t_in_seam; tsan_ignore_begin(); }
+	~InSeam() { tsan_ignore_end(); --t_in_seam; if (t_step_on && t_in_seam == 0) tf_set(); }
 };
 
 enum { ST_LIVE = 1, ST_FREED = 2 };
@@ -110,8 +123,17 @@ void set_crash_reporter(CrashReporter r) { g_reporter = r; }
 // glue has seen enough of them the library is no longer un-ignored, so the remaining calls run at full speed.
 volatile int g_tsan_flood = 0;
 static __thread int t_lifted = 0;
-void lib_enter(OpCtx *ctx) { t_ctx = ctx; if (!g_tsan_flood) { tsan_ignore_end(); t_lifted = 1; } }
-void lib_exit() { if (t_lifted) { tsan_ignore_begin(); t_lifted = 0; } t_ctx = nullptr; }
+static void preempt_arm(OpCtx *ctx);
+static void preempt_disarm();
+static void seam_yield(int site);
+void lib_enter(OpCtx *ctx) { t_ctx = ctx; if (!g_tsan_flood) { tsan_ignore_end(); t_lifted = 1; } if (ctx && ctx->preempt_after && ctx->preempt_at == 0) preempt_arm(ctx); }
+// every scheduling point the seams pass on behalf of the library goes through here
+static void seam_yield(int site) {
+	rt::sched_yield_point(site);
+	OpCtx *c = t_ctx;
+	if (c && c->preempt_after && c->preempt_at && !c->preempted && ++c->yields_seen == c->preempt_at) preempt_arm(c);
+}
+void lib_exit() { if (t_step_on) preempt_disarm(); if (t_lifted) { tsan_ignore_begin(); t_lifted = 0; } t_ctx = nullptr; }
 
 static void anomaly(const char *cls, const std::string &sig) {
 	int op = t_ctx ? t_ctx->op_index : -1;
@@ -339,7 +361,7 @@ static void *lib_alloc(OpCtx *ctx, size_t size, size_t align, int kind) {
 		}
 		++g_ledger.blocks; g_ledger.bytes += size;
 	}
-	rt::sched_yield_point(rt::SITE_ALLOC);
+	seam_yield(size >= OBJ_BLOCK ? rt::SITE_ALLOC : rt::SITE_ALLOC_TINY);
 	return res;
 }
 
@@ -385,6 +407,7 @@ static bool lib_free(void *p) {
 	++g_stats.frees;
 	rt::g_log.ev("free", ctx ? ctx->task : 0, ctx ? ctx->op_index : -1, (uint64_t)b->kind, (uint64_t)b->size);
 	--g_ledger.blocks; g_ledger.bytes -= b->size;
+	const bool was_tiny = b->size < OBJ_BLOCK;
 	if (b->arena) arena_free(*b);
 	else if (in_tiny_zone(b->user)) {
 		tiny_free(*b);
@@ -395,7 +418,7 @@ static bool lib_free(void *p) {
 		g_blocks.erase(b->user);
 		free(q);
 	}
-	if (ctx && !ctx->model_mode) rt::sched_yield_point(rt::SITE_FREE);
+	if (ctx && !ctx->model_mode) seam_yield(was_tiny ? rt::SITE_FREE_TINY : rt::SITE_FREE);
 	return true;
 }
 
@@ -601,6 +624,53 @@ static bool globals_guard_fault(uintptr_t addr, uintptr_t pc, bool is_write) {
 	return true;
 }
 
+// ------------------------------------------------------------------ instruction-level preemption
+static uintptr_t g_text_lo = 0, g_text_hi = 0;
+static int text_phdr_cb(struct dl_phdr_info *info, size_t, void *) {
+	if (!info->dlpi_name || !strstr(info->dlpi_name, "librx.so")) return 0;
+	for (int i = 0; i < info->dlpi_phnum; ++i) {
+		const ElfW(Phdr) &ph = info->dlpi_phdr[i];
+		if (ph.p_type == PT_LOAD && (ph.p_flags & PF_X)) { g_text_lo = info->dlpi_addr + ph.p_vaddr; g_text_hi = g_text_lo + ph.p_memsz; }
+	}
+	return 0;
+}
+static bool pc_is_library_code(uintptr_t pc) {
+	if (pc >= g_text_lo && pc < g_text_hi) return true;
+	if (kArena && pc >= g_arena && pc < g_arena + ARENA_BYTES) { Block *b = find_containing(pc, nullptr); return b && b->state == ST_LIVE && (b->kind == RQ_MMAP || b->kind == RQ_MMAP_HUGE); }
+	return false;
+}
+static void trap_handler(int, siginfo_t *, void *uc_) {
+	ucontext_t *uc = (ucontext_t *)uc_;
+	if (!t_step_on || t_in_seam) { if (!t_step_on) uc->uc_mcontext.gregs[REG_EFL] &= ~(greg_t)0x100; return; }
+	++g_stats.preempt_steps;
+	uintptr_t pc = (uintptr_t)uc->uc_mcontext.gregs[REG_RIP];
+	if (!pc_is_library_code(pc)) {
+		// code outside the library (libc, libstdc++) is stepped through but not counted; a shot that spends too long there is dropped
+		if (++t_step_foreign > 6000) { t_step_on = 0; t_step_left = 0; uc->uc_mcontext.gregs[REG_EFL] &= ~(greg_t)0x100; }
+		return;
+	}
+	if (t_step_left > 1) { --t_step_left; return; }
+	if (rt::sched_lock_depth() > 0) return;          // inside a lock region: switch at the first library instruction after it
+	// here
+	OpCtx *ctx = t_step_ctx;
+	t_step_on = 0; t_step_left = 0;
+	uc->uc_mcontext.gregs[REG_EFL] &= ~(greg_t)0x100;
+	++t_in_seam;
+	rt::g_log.ev("preempt", ctx ? ctx->task : 0, ctx ? ctx->op_index : -1, ctx ? ctx->preempt_after : 0);
+	bool sw = rt::sched_yield_point_forced(rt::SITE_PREEMPT);
+	--t_in_seam;
+	if (sw) { ++g_stats.preempt_fired; if (ctx) ctx->preempted = true; }
+}
+static void preempt_arm(OpCtx *ctx) {
+	if (!kArena || !rt::sched_in_phase()) return;
+	if (!g_text_lo) dl_iterate_phdr(text_phdr_cb, nullptr);
+	if (!g_text_lo) return;
+	++g_stats.preempt_armed;
+	t_step_ctx = ctx; t_step_left = ctx->preempt_after; t_step_on = 1; t_step_foreign = 0;
+	if (t_in_seam == 0) tf_set(); // inside the seams the flag is raised when the thread goes back to library code (~InSeam)
+}
+static void preempt_disarm() { t_step_on = 0; t_step_left = 0; tf_clear(); }
+
 // ------------------------------------------------------------------ crash capture
 static char g_altstack[1 << 16];
 
@@ -645,6 +715,9 @@ void install_crash_handlers() {
 	sa.sa_sigaction = crash_handler; sa.sa_flags = SA_SIGINFO | SA_ONSTACK | SA_NODEFER;
 	sigaction(SIGSEGV, &sa, nullptr); sigaction(SIGBUS, &sa, nullptr); sigaction(SIGFPE, &sa, nullptr);
 	sigaction(SIGILL, &sa, nullptr); sigaction(SIGABRT, &sa, nullptr);
+	struct sigaction st; memset(&st, 0, sizeof st);
+	st.sa_sigaction = trap_handler; st.sa_flags = SA_SIGINFO | SA_RESTART;
+	sigaction(SIGTRAP, &st, nullptr);
 	std::set_terminate(terminate_handler);
 }
 
@@ -745,7 +818,7 @@ extern "C" void *__wrap_mmap(void *addr, size_t len, int prot, int flags, int fd
 		++g_ledger.maps; g_ledger.map_bytes += b->npages * PG;
 		res = (void *)b->user;
 	}
-	rt::sched_yield_point(rt::SITE_MMAP);
+	seam_yield(rt::SITE_MMAP);
 	return res;
 }
 
@@ -784,7 +857,7 @@ extern "C" int __wrap_munmap(void *addr, size_t len) {
 	++ctx->frees;
 	if (kArena) arena_free(*b);
 	else { munmap(addr, b->npages * PG); g_blocks.erase(b->user); }
-	rt::sched_yield_point(rt::SITE_MUNMAP);
+	seam_yield(rt::SITE_MUNMAP);
 	return 0;
 }
 
@@ -809,7 +882,7 @@ extern "C" int __wrap_mprotect(void *addr, size_t len, int prot) {
 		// that asks for W+X is a violation whether or not it would have been granted.
 		++ctx->pfired; ++g_stats.mprotect_refused;
 		if (b && (prot & PROT_WRITE) && (prot & PROT_EXEC) && (b->owner_class == OWN_CACHE || b->owner_class == OWN_VM_SECURE)) anomaly("WX", std::string("mprotect rwx owner=") + owner_of(*b));
-		rt::sched_yield_point(rt::SITE_MPROTECT);
+		seam_yield(rt::SITE_MPROTECT);
 		errno = ENOMEM; return -1;
 	}
 	if (!b || b->state != ST_LIVE || !(b->kind == RQ_MMAP || b->kind == RQ_MMAP_HUGE)) {
@@ -833,7 +906,7 @@ extern "C" int __wrap_mprotect(void *addr, size_t len, int prot) {
 		if (b->owner_class == OWN_CACHE || b->owner_class == OWN_VM_SECURE) anomaly("WX", std::string("mprotect rwx owner=") + owner_of(*b));
 		else ++g_stats.rwx_plain;
 	} else if (((prot & PROT_EXEC) && was_w && !was_x) || ((prot & PROT_WRITE) && was_x && !was_w)) ++g_stats.rw_rx_transitions;
-	rt::sched_yield_point(rt::SITE_MPROTECT);
+	seam_yield(rt::SITE_MPROTECT);
 	return 0;
 }
 
@@ -868,7 +941,7 @@ extern "C" int __wrap_sigaction(int sig, const struct sigaction *act, struct sig
 	++ctx->sigactions; ++g_stats.sigactions;
 	rt::g_log.ev("sigaction", ctx->task, ctx->op_index, (uint64_t)sig, act ? 1 : 0);
 	int r = sigaction(sig, act, old);
-	rt::sched_yield_point(rt::SITE_SIGACTION);
+	seam_yield(rt::SITE_SIGACTION);
 	return r;
 }
 extern "C" sighandler_t __wrap_signal(int sig, sighandler_t h) {
@@ -878,7 +951,7 @@ extern "C" sighandler_t __wrap_signal(int sig, sighandler_t h) {
 	++ctx->sigactions; ++g_stats.sigactions;
 	rt::g_log.ev("signal", ctx->task, ctx->op_index, (uint64_t)sig, 1);
 	sighandler_t r = signal(sig, h);
-	rt::sched_yield_point(rt::SITE_SIGACTION);
+	seam_yield(rt::SITE_SIGACTION);
 	return r;
 }
 
@@ -886,7 +959,7 @@ extern "C" sighandler_t __wrap_signal(int sig, sighandler_t h) {
 extern "C" void randomx_verif_yield(int site) {
 	if (!t_ctx || t_ctx->model_mode || t_in_seam) return;
 	InSeam g;
-	rt::sched_yield_point(site);
+	seam_yield(site);
 }
 
 // ------------------------------------------------------------------ global operator new/delete
